@@ -37,7 +37,8 @@ type scenario struct {
 	RelCwd     bool              `json:"relative_paths"`
 	Symlinks   map[string]string `json:"symlinks"`  // relative link path -> relative target, created after Files
 	Hardlinks  map[string]string `json:"hardlinks"` // relative link path -> relative existing file (a second name for the same inode)
-	NoFaults   bool              `json:"no_faults"` // corpus scenarios: fault-free run only (the formatter is the subject, not the file operations)
+	NoFaults   bool              `json:"no_faults"`
+	AnyOutcome bool              `json:"any_outcome"` // the fault-free run may succeed or fail (platform limits decide); only the file-state rules apply // corpus scenarios: fault-free run only (the formatter is the subject, not the file operations)
 }
 
 func (s *scenario) id() string { return s.Tool + "|" + s.Input + "|prior=" + s.Prior }
@@ -142,6 +143,22 @@ func scenarios(thorough bool) []*scenario {
 				out = append(out, l)
 			}
 		}
+		if prior == "existing" {
+			// an output name so long (251 bytes) that a temporary name derived from it exceeds NAME_MAX: the run has to fail
+			// and leave the target alone - not fall back to rewriting it in place
+			long := strings.Repeat("g", 248) + ".go"
+			for _, in := range []struct {
+				class, schema string
+			}{{"valid", schemaValid}} {
+				l := compileScenario(in.class+"/output-name-251-bytes", in.schema, prior, false)
+				delete(l.Files, "out.go")
+				l.Files["gen/"+long] = previous
+				l.Args = []string{"-i", "{FS}/in.bop", "-o", "{FS}/gen/" + long}
+				l.Targets = []string{"gen/" + long}
+				l.AnyOutcome = true
+				out = append(out, l)
+			}
+		}
 		d := compileScenario("unreadable-input/directory", "", prior, true)
 		d.Dirs = []string{"in.bop"}
 		out = append(out, d)
@@ -212,6 +229,16 @@ func scenarios(thorough bool) []*scenario {
 		fmtDirScenario("validation-error", three(schemaValidRaw, schemaUndefined, schemaValidRaw3), nil, false),
 		fmtDirScenario("formatter-mangled/typed-enum", three(schemaValidRaw, schemaTypedEnum, schemaValidRaw3), nil, false),
 	)
+	// 256 and 257 files that cannot be parsed (an exit status is one byte: a count of failures wraps to 0 at 256)
+	for _, n := range []int{256, 257} {
+		files := map[string]string{"zz_valid.bop": schemaValidRaw}
+		for i := 0; i < n; i++ {
+			files[fmt.Sprintf("bad%03d.bop", i)] = schemaSyntax
+		}
+		many := fmtDirScenario(fmt.Sprintf("syntax-error/in-%d-files", n), files, nil, true)
+		many.NoFaults = true
+		out = append(out, many)
+	}
 	ud := fmtDirScenario("unreadable-input/subdirectory", map[string]string{"a.bop": schemaValidRaw, "c.bop": schemaValidRaw3}, []string{"d/b.bop"}, true)
 	out = append(out, ud)
 	un := fmtDirScenario("unreadable-input/nonexistent", map[string]string{}, nil, true)
